@@ -122,6 +122,12 @@ CHECKS = {
         tech="property-based testing: reference-model oracle (schedule as multiset) + structural validity predicate",
         ref="DESIGN.md section 3 / C19",
     ),
+    "C16": dict(
+        text="Fuzzing with an explicit oracle: junk strings, token soups, character- and token-granular prefixes and character-level mutations of valid programs are handed to four entry points (parse, header parse, parse with relative pulse import, run); only a result, JaqalError, or ImportError-for-a-missing-module may come out, within a deterministic step budget, parse errors must carry an in-text position, ill-formed token texts (independent Earley recognizer) and texts with illegal characters must raise JaqalParseError; histories of 2-6 calls in one process must reproduce, text by text, the outcome of a pristine freshly spawned interpreter.",
+        note=TRUST + "vlib/pristine.py (fresh `python -c` per distinct text, asserts importlib.util not yet imported), vlib/refgrammar.py; raw character strings get the weak oracle only; run-entry texts containing large numbers are excluded from the termination budget (honest cost unbounded).",
+        tech="grammar-aware fuzzing (PRNG-expanded seeds under Hypothesis) with exception-contract oracle, step-budget termination oracle and differential against a pristine interpreter for call histories",
+        ref="DESIGN.md section 3 / C16",
+    ),
 }
 
 ORDER = [f"C{i:02d}" for i in range(1, 21)]
